@@ -15,7 +15,8 @@ RULE = ('streams from an independent encoder (harness/streams.py): payloads 1..1
         'Flow Control (reference frame from the extracted Coq Spec: ContinueToSend, configured blocksize/stmin, padding, id, prefix) '
         'after the First Frame and after every blocksize-th Consecutive Frame that does not complete the message; no error. '
         'Every case is replayed on the extracted model. non-trivial = distinct cases'
-        " 30 % of the multi-frame cases run full duplex: the receiver transmits a multi-frame message of its own meanwhile (queued before or during the reception, paced by the peer's STmin); only its Flow Control frames are counted.")
+        " 30 % of the multi-frame cases run full duplex: the receiver transmits a multi-frame message of its own meanwhile (queued before or during the reception, paced by the peer's STmin); only its Flow Control frames are counted."
+        ' (reparam) tx_padding / tx_data_min_length changed with params.set() between two receptions: the Flow Control of the second is the reference frame of the new parameters.')
 ASSUME = ['frames of one message are processed within rx_consecutive_frame_timeout of each other (gaps of 0 or 0.45 x the timeout)']
 
 
